@@ -87,6 +87,17 @@ def desugar(loc, relfile, fn_paths, rules, _pass=0, optional=()):
                     rewrites.append((a, b, new))
                     records.append({"fn": fp, "rule": "D61 S.get_domains().map(|v| E).collect::<Vec<_>>()  =>  { let d = S.pv_domains(); push loop over d }   (pv_domains: the vector of the domain ids the iterator yields, in order)",
                                     "original": src[a:b], "rewritten": new})
+            if "D63" in rules:
+                # V.retain(|&p| C);  =>  filtering loop into a fresh vector that replaces V   (C only reads)
+                seg = src[it["start"]:it["end"]]
+                for m in re.finditer(r"([a-z_][a-z_0-9]*)\.retain\(\|&([a-z_][a-z_0-9]*)\| ([^\n]+)\);", seg):
+                    a, b = it["start"] + m.start(), it["start"] + m.end()
+                    V, pvar, C = m.group(1), m.group(2), m.group(3)
+                    new = (f"{{ let mut pv_keep = Vec::new(); let mut pv_q: usize = 0; while pv_q < {V}.len() {{ let {pvar} = {V}[pv_q]; pv_q += 1; "
+                           f"if {C} {{ pv_keep.push({pvar}); }} }} {V} = pv_keep; }}")
+                    rewrites.append((a, b, new))
+                    records.append({"fn": fp, "rule": "D63 V.retain(|&p| C);  =>  { filtering loop over V into a fresh vector; V = that vector }   (items are Copy, C only reads)",
+                                    "original": src[a:b], "rewritten": new})
             if "D64" in rules:
                 # (E as f64 / 2.0).floor() as i32  =>  pv_half_floor(E)   (E a non-negative i32: exact in f64)
                 seg = src[it["start"]:it["end"]]
@@ -372,6 +383,17 @@ def desugar(loc, relfile, fn_paths, rules, _pass=0, optional=()):
                     new = (f"let pv_seq_{pat} = {ex}; let mut pv_n_{pat}: usize = 0; while pv_n_{pat} < pv_seq_{pat}.len() {{ let {pat} = pv_seq_{pat}[pv_n_{pat}]; pv_n_{pat} += 1;")
                     rewrites.append((v["call"][0], v["call"][1], new))
                     records.append({"fn": fp, "rule": "D54 for p in E { B } (E a vector handed over by value, copyable items)  =>  let s = E; let mut n = 0; while n < s.len() { let p = s[n]; n += 1; B }",
+                                    "original": src[v["call"][0]:v["call"][1]], "rewritten": new})
+                    continue
+                if v["rule"] == "D65":
+                    buf = src[v["buf"][0]:v["buf"][1]]
+                    recv = src[v["recv"][0]:v["recv"][1]]
+                    idx = src[v["idx"][0]:v["idx"][1]]
+                    pat = src[v["pat"][0]:v["pat"][1]]
+                    body = src[v["body"][0]:v["body"][1]]
+                    new = (f"{{ let mut pv_i: usize = 0; while pv_i < {recv}.len() {{ let {idx} = pv_i; let {pat} = &{recv}[pv_i]; pv_i += 1; let pv_e = {body}; {buf}.push(pv_e); }} }}")
+                    rewrites.append((v["call"][0], v["call"][1], new))
+                    records.append({"fn": fp, "rule": "D65 BUF.extend(X.iter().enumerate().map(|(i, p)| E))  =>  { index loop: let i = k; let p = &X[k]; BUF.push(E) }   (BUF a vector)",
                                     "original": src[v["call"][0]:v["call"][1]], "rewritten": new})
                     continue
                 if v["rule"] == "D53":
